@@ -381,7 +381,7 @@ def run(tier, res, force_search=False):
     mismatches = []
     t1 = time.time()
     try:
-        n_deb = 10 if tier == "quick" else 120
+        n_deb = 10 if tier == "quick" else 160
         mm = DC.correspondence(rng, n_deb, tier, res, families=[x for x in DEB_CORR_FAMILIES if x != "CDFt"])
         first_part = res.extra.pop("debiasers_corr", None)
         mm += DC.correspondence(rng, 3 * n_deb, tier, res, families=["CDFt"])  # many configurations (shift x ecdf/iecdf pair x SSR)
@@ -389,7 +389,7 @@ def run(tier, res, force_search=False):
         if mm:
             res.tie_broken.append(f"correspondence DrvDebiasers: {len(mm)} mismatches, first: {str(mm[0])[:700]}")
             mismatches += [{k: (str(v)[:400]) for k, v in m.items()} for m in mm[:3]]
-        n_isi = 48 if tier == "quick" else 480
+        n_isi = 48 if tier == "quick" else 800
         mi = IC.correspondence(rng, n_isi, tier, res, configs=ISIMIP_CORR_CONFIGS)
         mi += IC.correspondence_aux(rng, 6 if tier == "quick" else 60, tier, res)
         if mi:
@@ -402,7 +402,7 @@ def run(tier, res, force_search=False):
 
     # ---- the property's oracle on the real code (real scipy families)
     t2 = time.time()
-    reps = 3 if tier == "quick" else 10
+    reps = 3 if tier == "quick" else 20
     if force_search or not lean_ok or res.tie_broken:
         reps *= 3
     plan = []
